@@ -355,6 +355,10 @@ def _deshuffle_one(ctx, f, flow, cfg, pname, perm_attr, suffix):
         if not isinstance(st, ast.If):
             return None
         from ..flow import conjuncts
+        if isinstance(st.test, ast.BoolOp) and isinstance(st.test.op, ast.Or):
+            # `if no permutation or no pairs: <skip>`: the true branch bypasses the translation legitimately
+            dj = [cls(c) for c in st.test.values]
+            return "T" if all(c in ("noperm", "empty") for c in dj) else None
         cj = [cls(c) for c in conjuncts(st.test)]
         if all(c in ("perm", "nonempty") for c in cj):
             return "F"          # translation skipped only without permutation / without pairs
@@ -650,7 +654,26 @@ def rule_complete(ctx):
            node=early[0] if early else tq[0], func=f)
     # the points handed to the tree are the conversion of the current arguments
     pts = tq[0].args[0] if tq[0].args else None
-    v = flow.resolve(pts, at=tq[0], depth=2) if pts is not None else None
+    v = flow.resolve(pts, at=tq[0], depth=3, stop=(f.params[1], f.params[2])) if pts is not None else None
+    # turning a list / a single number into an array is the identity on the coordinates
+
+    class _Coerce(ast.NodeTransformer):
+        def visit_Call(self, n_):
+            n_ = self.generic_visit(n_)
+            if (dotted(n_.func) or "").split(".")[-1] in ("atleast_1d", "asarray", "array", "asanyarray") and n_.args and isinstance(n_.func, ast.Attribute) \
+                    and isinstance(n_.func.value, ast.Name) and n_.func.value.id in ("np", "numpy"):
+                return n_.args[0]
+            return n_
+
+        def visit_IfExp(self, n_):
+            n_ = self.generic_visit(n_)
+            if "isinstance(" in str(norm(n_.test)) and str(norm(n_.body)) == str(norm(n_.orelse)):
+                return n_.body
+            return n_
+    if v is not None:
+        from ..core import clone as _clone
+        v = ast.fix_missing_locations(_Coerce().visit(_clone(v)))
+    # (the coordinates may have been re-bound to their array form first: lat = np.atleast_1d(np.asarray(lat)) under an isinstance test)
     okp = v is not None and norm(v) == "self._to_metric(%s, %s)" % (f.params[1], f.params[2])
     ctx.ob("GeoIndex.query.points", okp, "tree queried with %s" % (norm(v) if v is not None else None), "self._to_metric(lat, lon) of this call's arguments", node=tq[0], func=f)
     stores = []
